@@ -22,6 +22,17 @@ func VerifC04MetricsItems() {
 	vAssert(len(res) > 0, "metrics-items/result-non-empty")
 	seen := map[uint64]int{}
 	total := 0
+	find := func(id uint64) *vc04Point {
+		var want *vc04Point
+		for k := range in {
+			if in[k].id == id {
+				want = &in[k]
+			}
+		}
+		return want
+	}
+	// first pass: everything but the metric-level identity (whose loss on a data-point split is a known
+	// finding that would end the path before the remaining clauses were looked at)
 	for _, r := range res {
 		mr := r.(*metricsRequest)
 		flat := vc04FlattenMetrics(mr.md)
@@ -30,12 +41,7 @@ func VerifC04MetricsItems() {
 		vAssert(sz.MetricsSize(mr.md) <= maxSize || len(flat) == 1, "metrics-items/batch-within-max-size-unless-single-item")
 		for _, it := range flat {
 			seen[it.id]++
-			var want *vc04Point
-			for k := range in {
-				if in[k].id == it.id {
-					want = &in[k]
-				}
-			}
+			want := find(it.id)
 			vAssert(want != nil, "metrics-items/no-invented-item")
 			if want == nil {
 				continue
@@ -44,6 +50,20 @@ func VerifC04MetricsItems() {
 			vAssert(it.rattr == want.rattr && it.rschema == want.rschema, "metrics-items/point-keeps-resource-and-schema-url")
 			vAssert(it.sname == want.sname && it.sschema == want.sschema, "metrics-items/point-keeps-scope-and-schema-url")
 			vAssert(it.mtype == want.mtype, "metrics-items/point-keeps-metric-type/"+ty)
+		}
+	}
+	vAssert(total == len(in), "metrics-items/item-count-conserved")
+	for _, it := range in {
+		vAssert(seen[it.id] == 1, "metrics-items/every-item-exactly-once")
+	}
+	// second pass: metric-level identity
+	for _, r := range res {
+		for _, it := range vc04FlattenMetrics(r.(*metricsRequest).md) {
+			want := find(it.id)
+			if want == nil {
+				continue
+			}
+			ty := vc04TypeName(want.mtype)
 			vAssert(it.mname == want.mname, "metrics-items/point-keeps-metric-name/"+ty)
 			vAssert(it.munit == want.munit, "metrics-items/point-keeps-metric-unit/"+ty)
 			vAssert(it.mdesc == want.mdesc, "metrics-items/point-keeps-metric-description/"+ty)
@@ -51,10 +71,6 @@ func VerifC04MetricsItems() {
 			vAssert(it.temporality == want.temporality, "metrics-items/point-keeps-temporality/"+ty)
 			vAssert(it.monotonic == want.monotonic, "metrics-items/point-keeps-monotonicity/"+ty)
 		}
-	}
-	vAssert(total == len(in), "metrics-items/item-count-conserved")
-	for _, it := range in {
-		vAssert(seen[it.id] == 1, "metrics-items/every-item-exactly-once")
 	}
 	if len(res) > 1 {
 		vReach("split")
